@@ -10,6 +10,7 @@ package signaling
 import (
 	"bufio"
 	"bytes"
+	"encoding/base64"
 	"encoding/json"
 	"fmt"
 	"io"
@@ -711,7 +712,19 @@ func (f *c10Fix) run(s *c10Step, emitStart func()) {
 		rid = "noresumeid"
 	}
 	burl := f.sys.backendUrl(0) + "/ocs/v2.php/apps/spreed/api/v1/signaling/backend"
-	subst := strings.NewReplacer(c10Sid, sid, c10Pid, pid, c10Bid, f.byPub, c10Rid, rid, c10Room, c10RoomId, c10Burl, burl, c10Bbase, f.sys.backendUrl(0), c10Oid, f.offPub)
+	const authPath = "/ocs/v2.php/apps/spreed/api/v1/signaling/backend"
+	pairs := []string{c10Sid, sid, c10Pid, pid, c10Bid, f.byPub, c10Rid, rid, c10Room, c10RoomId, c10Burl, burl, c10Bbase, f.sys.backendUrl(0), c10Oid, f.offPub,
+		c10Burl1, f.sys.backendUrl(1) + authPath, c10BurlX, f.sys.backendUrl(f.sys.nb+1) + authPath}
+	// protocol 2.0 tokens are made when the frame is sent (time claims relative to now, key pairs of this process)
+	switch s.K {
+	case "doc":
+		pairs = append(pairs, f.tokenPairs(c10Text(s.Doc))...)
+	default:
+		if raw, err := base64.StdEncoding.DecodeString(s.Raw); err == nil {
+			pairs = append(pairs, f.tokenPairs(string(raw))...)
+		}
+	}
+	subst := strings.NewReplacer(pairs...)
 	rev := strings.NewReplacer(sid, c10Sid, pid, c10Pid, f.byPub, c10Bid, f.offPub, c10Oid, rid, c10Rid, burl, c10Burl, f.sys.backendUrl(0), c10Bbase, c10RoomId, c10Room)
 	data, binary := s.frame(subst)
 	if s.K == "doc" {
@@ -859,7 +872,13 @@ func c10Child(t *testing.T, batchFile, logFile string) {
 		w.Flush()
 	}
 	log.SetOutput(io.Discard)
-	sys := newHdSystem(t, []hdBackendCfg{{}})
+	// two configured backends: 0 publishes an RSA key for protocol 2.0 tokens and supports federation,
+	// 1 publishes no key (c10_tok_verif_test.go)
+	sys := newHdSystem(t, []hdBackendCfg{{}, {}})
+	sys.backend.mu.Lock()
+	delete(sys.backend.keys, 1)
+	sys.backend.features = append(sys.backend.features, FeatureFederationV2)
+	sys.backend.mu.Unlock()
 	f := &c10Fix{t: t, sys: sys, fix: map[int]*c10StateFix{}}
 	emit(c10LogLine{K: -1, Ph: "ready"})
 	for i := range items {
